@@ -111,3 +111,42 @@ func CopyTree(src, dst string) error {
 	}
 	return nil
 }
+
+// ReadLogical reads the first n bytes of path (n < 0: the whole file, but for a
+// sparse pre-extended file only up to the end of its last data extent).
+func ReadLogical(path string, n int64) ([]byte, error) {
+	f, err := os.Open(path)
+	if err != nil {
+		return nil, err
+	}
+	defer f.Close()
+	st, err := f.Stat()
+	if err != nil {
+		return nil, err
+	}
+	size := st.Size()
+	if n >= 0 && n < size {
+		size = n
+	} else if n < 0 && size >= 64<<20 {
+		// find the end of the last data extent
+		end := int64(0)
+		off := int64(0)
+		fd := int(f.Fd())
+		for off < size {
+			d, err := syscall.Seek(fd, off, seekData)
+			if err != nil {
+				break
+			}
+			h, err := syscall.Seek(fd, d, seekHole)
+			if err != nil {
+				h = size
+			}
+			end = h
+			off = h
+		}
+		size = end
+	}
+	buf := make([]byte, size)
+	_, err = io.ReadFull(io.NewSectionReader(f, 0, size), buf)
+	return buf, err
+}
